@@ -1,14 +1,31 @@
 """C09  String syntax: quoting, concatenation, here-documents denote one exact string.
 
-Kernels (DESIGN.md section 4, C09):
-  K1  tokenizer: the real TokenStream (shlex reading through a pure-Python StringIO) against an
-      independent reader of the documented syntax, source text symbolic.
-  K2  symbol-reference fragments: symbol_syntax.split / parse_fragments_from_token, token text symbolic.
-  K3  denotation: the real string parser on tokens made of differently quoted adjacent fragments
-      (forms concrete per obligation, fragment characters and symbol values symbolic), followed by
-      a next token / end of line.
-  K4  here-document: the real rich-string parser, body lines symbolic.
-  K5  list elements + continuation token, and text-until-end-of-line.
+Kernels (DESIGN.md section 4, C09).  Every kernel runs the REAL parser on a source text and compares what
+it delivers with an independent reader of the documented syntax (harness/_C09_ref.py):
+
+  K1  tokenizer: the real TokenStream (the real shlex, reading through a pure-Python StringIO) - token
+      strings, source slices, positions, remaining source, line ends, syntax-error state.  The whole
+      source text is one symbolic string.
+  K2  symbol-reference fragments: symbol_syntax.split, the three token forms of
+      parse_string.parse_fragments_from_token, whole-token references.  Token text symbolic.
+  K3  denotation: the real string parsers (parse_string_from_token_parser, RichStringParser,
+      SymbolReferenceOrStringParser) on tokens made of differently quoted adjacent fragments followed by a
+      next token / end of line: fragments and references of the delivered StringSdv, its resolved value,
+      and the token that follows.
+  K4  here-document through the real RichStringParser: body, end marker, what follows, missing marker,
+      superfluous arguments.
+  K5  lists through the real parse_list (elements, `)`, continuation backslash, list-valued symbols) and
+      text-until-end-of-line (`:>`).
+
+Texts of K2-K5 are families given by a MASK: pinned characters are concrete, each hole is one symbolic
+character over the hole's alphabet (alphabets contain quotes, separators and line ends, so token and line
+structure is data).  Symbol values are 'x' / 'y z' except in the obligations named ...-symNM where they are
+symbolic strings of the stated lengths.
+
+Regions (known findings; switched on by known_findings.json):
+  C09-hash-comment        `#` outside quotes starts a shlex comment
+  C09-unicode-space       U+00A0 (and other str.isspace() characters that are no separators) as a token
+  C09-concat-quote-type   a token that mixes hard-quoted and other fragments and contains a reference
 """
 from typing import List
 
@@ -182,7 +199,7 @@ def _k1_obligations(tier: str) -> List[Ob]:
                 bound='every source text of exactly %d characters over {a, @, space, ", \', #, newline, backslash}%s: '
                       'all tokens consumed until null / syntax error' % (
                           n, ''.join(', character %d in %r' % (i + 1, al) for i, (_, al) in enumerate(combo))),
-                timeout=900, real=REAL_K1, stubs=(STUB_IO,),
+                timeout=900 if n < 5 else 1500, real=REAL_K1, stubs=(STUB_IO,),
                 outside=('characters outside the stated alphabet (tab, CR and other separators; other letters are '
                          'equivalent to `a` for the tokenizer only by inspection of shlex)',),
                 entry='TokenStream(source) / new_token_parser(source)'))
@@ -196,11 +213,6 @@ def _k1_obligations(tier: str) -> List[Ob]:
                   bound='seeded oracle error: any quote character closes a quotation', timeout=300,
                   expect=ob.REFUTE, real=REAL_K1, stubs=(STUB_IO,)))
     return obs
-
-
-def _chname(c: str) -> str:
-    return {'a': 'a', '@': 'at', ' ': 'sp', '"': 'dq', "'": 'sq', '#': 'hash', '\n': 'nl', '\\': 'bs',
-            '\xa0': 'nbsp'}.get(c, 'u%04x' % ord(c))
 
 
 # =========================================================================== masks
@@ -305,10 +317,6 @@ def _mask_name(mask: str) -> str:
             r += {'"': 'D', "'": 'H', ' ': '_', '\n': '.', '\\': 'B', '<': 'l', '>': 'g', ':': 'c', ')': 'p',
                   '=': 'e'}.get(c, '-')
     return r
-
-
-def _numbered(prefix: str, masks):
-    return [('%s%02d-%s' % (prefix, i + 1, _mask_name(m) or 'empty'), m) for i, m in enumerate(masks)]
 
 
 def _mask_obs(tier: str, prefix: str, quick, thorough, fn: str, kernel: str, real, entry: str,
@@ -521,10 +529,6 @@ def _ref_names_of_parts(parts, soft_protects: bool = False):
             if is_sym:
                 names.append(t)
     return names
-
-
-def _ref_names_of_text(text: str):
-    return [t for is_sym, t in ref.split_refs(text) if is_sym]
 
 
 def _merge(pieces):
@@ -775,9 +779,9 @@ K3_QUICK = [
     ('@[A]@"&@[B]@"', dict(symvalues=(1, 1))), ('"@[A]@"@[B]@&', dict(symvalues=(0, 2))),
 ]
 K3_THOROUGH = [
-    '^^^ ^', '^^^^', '"^^^" ^', "'^^^' ^", '^^"^^"^', "^^'^^'^",
+    '^^^ ^', '^^^^', '"^^^" ^', "'^^^' ^", '^"^^"^', "^'^^'^",
     '&&@[A]@&& a', '"&@[A]@&@[B]@&"', '@[A]@&@[B]@& a',
-    '^"^"\'^\'^ ^', "'^'^\"^\"'^'", '"@[A]@"&&\'@[B]@\'&', "&'@[A]@'&\"@[B]@\"&",
+    '^"^"\'^\' ^', "'^'^\"^\"'^'", '"@[A]@"&&\'@[B]@\'&', "&'@[A]@'&\"@[B]@\"&",
     ('@[A]@&"@[B]@"&@[L]@', dict(symvalues=(2, 1))),
 ]
 
@@ -891,8 +895,8 @@ K4_QUICK = [
     ('<<E\n@[A]@$\nE', dict(symvalues=(1, 1))),
 ]
 K4_THOROUGH = [
-    '<<E\n$$$$', '<<E\n@[A]@$\n$E\n$', '<<E\n$$$$$', '<<E\n$$\n$$\nE\n$', '<<E\n$$\n$\n$E\n$',
-    "<<E\n'$\n$'$\nE\n$", '<<E\n$@[A]@$\n$@[B]@\nE$\nE',
+    '<<E\n$$$$', '<<E\n@[A]@$\n$E\n$', '<<E\n$$\n$\nE\n', '<<E\n$\n$\n$E\n',
+    "<<E\n'$\n$'$\nE\n", '<<E\n$@[A]@\n$@[B]@\nE$\nE',
 ]
 
 
@@ -1091,7 +1095,7 @@ K5L_QUICK = [
     '@[L]@ !\n!', 'a @[A]@!\\\n@[L]@ !', '~= a', '!\\!\n!', '"@[L]@"!@[L]@',
     ('@[L]@ @[A]@!', dict(symvalues=(1, 1))),
 ]
-K5L_THOROUGH = ['!!!!', 'a \\\n!!~!', '!!!!!', 'a !!\n!!', '! \\\n!! !', '@[L]@ "!@[A]@" !!']
+K5L_THOROUGH = ['!!!!', 'a \\\n!!~!', 'a !!\n!!', '! \\\n!! !', '@[L]@ "!@[A]@" !!']
 K5T_QUICK = [
     ':>***', ':> *\n*', ':>~@[A]@*~', ':>*"*\n"', ' :> *a* \na',
     (':> @[A]@*', dict(symvalues=(2, 0))),
